@@ -504,6 +504,8 @@ func cmdSearch(seed uint64, n int) {
 	searchCounts(r, n, &jobs, &descs)
 	// trailing index: every mfro / mfra / tfra combination under the ISM flag
 	searchTrail(r, n/40, &jobs, &descs)
+	// cross references: synthesized encrypted fragments and every index / reference field of the real files
+	searchXref(r, n, &jobs, &descs)
 	res := runJobs(jobs, nprocs())
 	nfail := 0
 	for i, rs := range res {
